@@ -1,7 +1,10 @@
 import os, time, vf
 PID = "C17"
 # (history depth, max program weight, max composite nodes, max tree depth, deadline s, processes)
-TIERS = {"quick": (6, 2, 1, 1, 40, 12), "thorough": (8, 6, 3, 3, 1100, 16)}
+# thorough runs two canonical enumerations one after the other: A = all trees of depth <= 2 by weight (80 % of the time),
+# B = the trees of depth exactly 3 (three nested composites, <= 2 plain leaves; weight class 6 of the same order) (20 %)
+TIERS = {"quick": (6, 2, 1, 1, 40, 12), "thorough": (8, 5, 3, 2, 1100, 16)}
+ASAN = "detect_leaks=0:abort_on_error=0:quarantine_size_mb=32"
 def main(tier, args):
     t0 = time.time()
     exe = vf.build("C17/actions", [vf.VERIF + "/checks/C17/harness.cpp"],
@@ -11,8 +14,12 @@ def main(tier, args):
     dl = int(os.environ.get("VERIF_DEADLINE_S", dl))
     res = vf.Result(); log = open(vf.BUILD + "/C17/log.txt", "w")
     parts = range(np) if not args.only else [int(args.only)]
-    vf.run_procs(res, [("p%d" % i, [exe, "run", str(i), str(np), str(depth), str(maxw), str(maxc), str(maxd)]) for i in parts],
-                 env={"VERIF_DEADLINE_S": str(dl)}, log=log)
+    dl_a = dl if tier == "quick" else int(dl * 0.8)
+    vf.run_procs(res, [("A:p%d" % i, [exe, "run", str(i), str(np), str(depth), str(maxw), str(maxc), str(maxd)]) for i in parts],
+                 env={"VERIF_DEADLINE_S": str(dl_a), "ASAN_OPTIONS": ASAN}, log=log)
+    if tier != "quick":
+        vf.run_procs(res, [("B:p%d" % i, [exe, "run", str(i), str(np), str(depth), "6", "3", "3", "3"]) for i in parts],
+                     env={"VERIF_DEADLINE_S": str(dl - dl_a), "ASAN_OPTIONS": ASAN}, log=log)
     # at most 3 replays per signature over all processes: the shortest ones (totals stay in counters viol[<sig>])
     best = {}
     for v in sorted(res.viols, key=lambda v: len(v[1])):
@@ -21,7 +28,7 @@ def main(tier, args):
             best[v[0]].append(v)
     res.viols = [v for l in best.values() for v in l]
     shape = ("one composite level (every composite kind and mode over 1-4 leaves)" if maxd == 1 else
-             "trees of depth <= %d with <= %d composite nodes" % (maxd, maxc))
+             "trees of depth <= %d with <= %d composite nodes (enumeration A) and, separately, the trees of depth 3 = three nested composites over <= 2 plain leaves (enumeration B)" % (maxd, maxc))
     vf.finish(PID, tier, res, t0,
               rule="programs = real tbox::flow action trees, %s, <= 4 ProbeLeaf leaves, enumerated canonically by weight <= %d "
                    "(shape weight 2*(composites-1)+(depth-1)+max(0,leaves-2); leaf script weight S0,S1,F0,F1=0, N,B1 and the "
